@@ -537,42 +537,15 @@ func fullRangeLoop(lp *Loop, S ssa.Value, ia *ssa.IndexAddr) bool {
 	if len(ex) != 1 || ex[0][0] != lp.Header {
 		return false
 	}
-	iff, ok := lp.Header.Instrs[len(lp.Header.Instrs)-1].(*ssa.If)
-	if !ok {
+	idx, start, bound, ok := indexLoopInfo(lp)
+	if !ok || start != 0 {
 		return false
 	}
-	cmp, ok := iff.Cond.(*ssa.BinOp)
-	if !ok || cmp.Op != token.LSS {
-		return false
-	}
-	// cmp.X = i+1 ; cmp.Y = len(S)
-	ln, ok := cmp.Y.(*ssa.Call)
+	ln, ok := bound.(*ssa.Call)
 	if !ok || !isBuiltinCall(ln, "len") || ln.Call.Args[0] != S {
 		return false
 	}
-	inc, ok := cmp.X.(*ssa.BinOp)
-	if !ok || inc.Op != token.ADD {
-		return false
-	}
-	ph, ok := inc.X.(*ssa.Phi)
-	if !ok || ph.Block() != lp.Header {
-		return false
-	}
-	if c, ok := constInt(inc.Y); !ok || c != 1 {
-		return false
-	}
-	hasInit := false
-	for _, e := range ph.Edges {
-		if c, ok := constInt(e); ok && c == -1 {
-			hasInit = true
-		} else if e != ssa.Value(inc) {
-			return false
-		}
-	}
-	if !hasInit {
-		return false
-	}
-	return ia.Index == ssa.Value(inc) && ia.X == S && lp.Header.Succs[0] != nil && lp.Body[ia.Block()]
+	return ia.Index == idx && ia.X == S && lp.Header.Succs[0] != nil && lp.Body[ia.Block()]
 }
 
 // checkCollect checks the loop that builds slice S from the table.
